@@ -108,3 +108,35 @@ Definition parse_bigint (s : text) : result Z :=
       else let* n := parse_biguint s in Ok (Z.of_N n)
   | [] => let* n := parse_biguint s in Ok (Z.of_N n)
   end.
+
+(* ---- the canonical text an accepted literal denotes (used to state what the parsers accept) ---- *)
+Fixpoint strip_zeros (s : text) : text :=
+  match s with c :: r => if c =? ch_zero then strip_zeros r else s | [] => [] end.
+(* digits without leading zeros, "0" for zero *)
+Definition canon_digits (body : text) : text := match strip_zeros body with [] => [ch_zero] | t => t end.
+(* unsigned literal: one optional '+' dropped *)
+Definition canon_unsigned (s : text) : text :=
+  canon_digits (match s with c :: r => if c =? ch_plus then r else s | [] => [] end).
+(* signed literal: one optional sign; "-0…0" denotes 0 *)
+Definition canon_signed (s : text) : text :=
+  match s with
+  | c :: r =>
+      if c =? ch_plus then canon_digits r
+      else if c =? ch_minus then (match strip_zeros r with [] => [ch_zero] | t => ch_minus :: t end)
+      else canon_digits s
+  | [] => canon_digits []
+  end.
+Definition drop_underscores (s : text) : text := filter (fun c => negb (c =? ch_underscore)) s.
+(* num_bigint literals: the '+' rule of BigUint::from_str_radix, underscores dropped *)
+Definition biguint_body (s : text) : text :=
+  drop_underscores (match s with
+                    | c :: tail => if (c =? ch_plus) && negb (starts_with ch_plus tail) then tail else s
+                    | [] => s
+                    end).
+Definition canon_bigint (s : text) : text :=
+  match s with
+  | c :: tail =>
+      if c =? ch_minus then (match strip_zeros (biguint_body tail) with [] => [ch_zero] | t => ch_minus :: t end)
+      else canon_digits (biguint_body s)
+  | [] => canon_digits []
+  end.
